@@ -64,6 +64,19 @@ package proof
 //@ ensures result.MinCount == r.MinCount && result.RequestID == r.RequestID && result.AnsCount == r.AnsCount
 //@ ensures result.RequestTime == wrapu64(r.RequestTime) && result.ResolveTime == wrapu64(r.ResolveTime) && result.ResolveStatus == wrapu8(r.ResolveStatus) && result.Result == r.Result
 
+// C12: the common prefix of what every validator signed. Assumed about gogoproto's delimited encoding of a canonical vote
+// that has only type, height and round set: one length byte (the body is at most 33 bytes), the encoded type/height/round
+// fields (voteBody, abstract: fields with value 0 are omitted), then the 13 bytes of the zero-time timestamp field.
+// GetPrefix must return exactly voteBody - for every height and round, whatever bytes they contain.
+//@ spec voteBody(t Int, h Int, r Int) Bz uninterpreted
+//@ spec ts13() Bz = bzmk(42, 11, 8, 128, 146, 184, 195, 152, 254, 255, 255, 255, 1)
+//@ extern github.com/cometbft/cometbft/libs/protoio.MarshalDelimited(msg) (result, err)
+//@ ensures err == nil && typeis(msg, "*cmtproto.CanonicalVote") ==> (let v = unbox(msg, "*cmtproto.CanonicalVote") in
+//@        len(voteBody(v.Type, v.Height, v.Round)) <= 20 && result == bzcat(bzcat(bzmk(len(voteBody(v.Type, v.Height, v.Round)) + 13), voteBody(v.Type, v.Height, v.Round)), ts13()))
+//@ func GetPrefix
+//@ ensures err == nil ==> len(result) == len(voteBody(t, height, round))
+//@ ensures err == nil ==> (forall j :: 0 <= j && j < len(result) ==> result[j] == voteBody(t, height, round)[j])
+
 // C12: signatures are taken from, and canonical vote bytes rebuilt for, exactly the precommits FOR THE BLOCK
 // (BlockIDFlagCommit): absent and nil votes are skipped, they are neither relayed nor allowed to fail the proof;
 // each relayed signature is the vote's own (r = first 32 bytes, s = the rest) with its own encoded timestamp.
